@@ -1405,7 +1405,7 @@ fn main() {
         vec![2, 0, 1], vec![0, 3]];
     for ex in [false, true] {
         for sh in &shapes {
-            let reps = if th { 2 } else { 1 };
+            let reps = 1;
             for _ in 0..reps {
                 let m = gen_multi(&mut r, ex, sh.len(), sh);
                 let maxlen = (sh.len() + extra).min(if th { 7 } else { 6 });
@@ -1413,7 +1413,7 @@ fn main() {
             }
         }
     }
-    o.exhaustive("merge: every sequence (all permutations x all duplication patterns, covering or not) over the parts of 22 multi-part infos (quick; 44 thorough) with 1..4 parts, up to length parts+2 (thorough: +3)");
+    o.exhaustive("merge: every sequence (all permutations x all duplication patterns, covering or not) over the parts of 22 multi-part infos with 1..4 parts, up to length parts+2 (thorough: +3)");
     // the documented test vector of the crate (3 parts), all sequences up to length 5
     {
         let p0 = b"86536\0version\0name\0map\x006277493\x00627272\0gametype\x0035247\x003\x006\x009\x0012\0\0player8\0clan8\x008\x0088\x001\0\0player3\0clan3\x003\x0033\x001\0\0player1\0clan1\x001\x0011\x000\0\0".to_vec();
